@@ -8,7 +8,8 @@ use std::collections::{BTreeMap, BTreeSet};
 
 use vx_bounded::cli;
 
-const SCHEMA: &str = "type Query { k: K l: L p: P j: J m: M i2: I2 u: U v: V w: W x: Int }\n\
+const SCHEMA: &str = "type Query { k: K l: L p: P j: J m: M i2: I2 u: U v: V w: W a1: A1 b1: B1 c1: C1 x: Int }\n\
+interface A1 { a: Int }\ninterface B1 { a: Int }\ninterface C1 implements A1 & B1 { a: Int }\ntype OA implements A1 { a: Int }\ntype OB implements B1 { a: Int }\n\
 type Subscription { a: Int b: Int c(n: Int): K }\n\
 interface J { id: ID }\ninterface M implements J { id: ID mm: Int }\ninterface I2 { z: Int }\n\
 type K implements J { id: ID kk: Int }\ntype L { ll: Int }\ntype P implements M & J { id: ID mm: Int }\n\
@@ -26,6 +27,10 @@ fn possible(t: &str) -> BTreeSet<&'static str> {
         "U" => ["K", "L"].into(),
         "V" => ["L"].into(),
         "W" => ["P"].into(),
+        // A1 and B1 have no object type in common, only the interface C1, which no object implements
+        "A1" => ["OA"].into(),
+        "B1" => ["OB"].into(),
+        "C1" => [].into(),
         _ => panic!("unknown type {t}"),
     }
 }
@@ -34,7 +39,7 @@ fn possible(t: &str) -> BTreeSet<&'static str> {
 fn overlap(a: &str, b: &str) -> bool {
     a == b || !possible(a).is_disjoint(&possible(b))
 }
-const TYPES: [(&str, &str); 9] = [("k", "K"), ("l", "L"), ("p", "P"), ("j", "J"), ("m", "M"), ("i2", "I2"), ("u", "U"), ("v", "V"), ("w", "W")];
+const TYPES: [(&str, &str); 12] = [("k", "K"), ("l", "L"), ("p", "P"), ("j", "J"), ("m", "M"), ("i2", "I2"), ("u", "U"), ("v", "V"), ("w", "W"), ("a1", "A1"), ("b1", "B1"), ("c1", "C1")];
 
 struct Case {
     family: &'static str,
@@ -54,7 +59,7 @@ fn spread_cases() -> Vec<Case> {
             v.push(Case { family: "fragment spread applicability", label: format!("...F (on {cond}) inside {parent}"), doc: format!("query {{ {field} {{ ...F }} }}\nfragment F on {cond} {{ __typename }}"), expect_valid: applicable, why: why.clone() });
             // the body of an applicable fragment is validated against the condition type
             if applicable {
-                let own_field = match cond { "K" => "kk", "L" => "ll", "P" | "M" => "mm", "J" => "id", "I2" => "z", _ => "__typename" };
+                let own_field = match cond { "K" => "kk", "L" => "ll", "P" | "M" => "mm", "J" => "id", "I2" => "z", "A1" | "B1" | "C1" => "a", _ => "__typename" };
                 v.push(Case { family: "fragment body validation", label: format!("... on {cond} {{ {own_field} }} inside {parent}"), doc: format!("query {{ {field} {{ ... on {cond} {{ {own_field} }} }} }}"), expect_valid: true, why: format!("{own_field} is a field of {cond}") });
                 v.push(Case { family: "fragment body validation", label: format!("... on {cond} {{ bogus }} inside {parent}"), doc: format!("query {{ {field} {{ ... on {cond} {{ bogus }} }} }}"), expect_valid: false, why: format!("bogus is not a field of {cond}") });
                 v.push(Case { family: "fragment body validation", label: format!("...F (on {cond}) {{ bogus }} inside {parent}"), doc: format!("query {{ {field} {{ ...F }} }}\nfragment F on {cond} {{ bogus }}"), expect_valid: false, why: format!("bogus is not a field of {cond}") });
